@@ -77,6 +77,7 @@ pub unsafe fn pipe(fds: *mut libc::c_int) -> libc::c_int {
 }
 pub static mut FCNTL_LOG: [(i32, i32, i32); 4] = [(0, 0, 0); 4];
 pub static mut FCNTL_CALLS: usize = 0;
+pub static mut LAST_GETFD: i32 = 0;
 // libc::fcntl is C-variadic and cannot be modelled by shadowing; harnesses stub the 6-line wrapper `posix::fcntl`
 // with `common::model_fcntl` instead (the wrapper itself is trusted, listed in the evidence).
 pub unsafe fn fcntl3(fd: libc::c_int, cmd: libc::c_int, arg: i32) -> libc::c_int {
@@ -88,7 +89,8 @@ pub unsafe fn fcntl3(fd: libc::c_int, cmd: libc::c_int, arg: i32) -> libc::c_int
         // other descriptor flags may exist; only FD_CLOEXEC is modelled, the rest is an arbitrary bit pattern
         let other: i32 = kani::any();
         kani::assume(other >= 0 && other & libc::FD_CLOEXEC == 0);
-        other | if CLOEXEC[fd as usize] { libc::FD_CLOEXEC } else { 0 }
+        LAST_GETFD = other | if CLOEXEC[fd as usize] { libc::FD_CLOEXEC } else { 0 };
+        LAST_GETFD
     } else if cmd == libc::F_SETFD {
         CLOEXEC[fd as usize] = arg & libc::FD_CLOEXEC != 0;
         0
